@@ -11,4 +11,14 @@ CHECKS = {
                 "generator reaches; Python str modelled as a list of code points (no lone surrogates).",
         "technique": "Lean 4 proof (induction over the input string) + differential correspondence with the real scanner/parser",
     },
+    "C18": {
+        "text": "The module-level import events of every package module are regenerated from /repo on every run (translator) and "
+                "`decide +kernel` re-proves over that table, on an abstract machine of CPython's import system, that every public module "
+                "imports first in a fresh interpreter (quick) and that for all pairs both orders succeed and end in the same state (thorough, "
+                "chunked kernel evaluation). The machine is tied to CPython by fresh-interpreter imports (verdict, loaded modules, bound names).",
+        "note": "Trusted: Lean kernel (decide +kernel, no extra axioms), the ast-walking translator, the abstract import machine "
+                "(validated against real imports of all singles and sampled/all ordered pairs). The quantifier is finite, so the table "
+                "theorems are exhaustive; histories longer than two imports are not covered by a theorem.",
+        "technique": "translator-regenerated table + Lean 4 kernel evaluation (decide +kernel) + fresh-interpreter correspondence",
+    },
 }
